@@ -570,10 +570,24 @@ fn gen_leaf(rng: &mut Rng, g: &GenCtx, k: &Knobs) -> Q {
     Q::Prefix { field, value }
   } else if r < 94 {
     let field = if rng.chance(0.9) { g.tfield(rng) } else { g.any_field(rng) };
-    Q::Wildcard { field, value: gen_wildcard(rng, g) }
+    let mut value = gen_wildcard(rng, g);
+    for _ in 0..6 {
+      if !matches!(pattern_mode(g.sch, g.an, &field, &value), PatMode::Ambiguous) {
+        break;
+      }
+      value = gen_wildcard(rng, g);
+    }
+    Q::Wildcard { field, value }
   } else {
     let field = if rng.chance(0.9) { g.tfield(rng) } else { g.any_field(rng) };
-    Q::Regex { field, re: gen_regex(rng, g) }
+    let mut re = gen_regex(rng, g);
+    for _ in 0..6 {
+      if !matches!(pattern_mode(g.sch, g.an, &field, &re_string(&re)), PatMode::Ambiguous) {
+        break;
+      }
+      re = gen_regex(rng, g);
+    }
+    Q::Regex { field, re }
   }
 }
 
